@@ -33,10 +33,119 @@ FORBIDDEN = {
 UNRESERVED = set(map(ord, "ABCDEFGHIJKLMNOPQRSTUVWXYZabcdefghijklmnopqrstuvwxyz0123456789-._~"))
 
 
+def _pp(pr):
+    out = {"only_printable": pr.get("only_printable"), "unsafe": pr.get("unsafe")}
+    if "_name" in pr:
+        out["_name"] = pr["_name"]
+    return out
+
+
+def _utf8_sequence(b):
+    """a valid UTF-8 byte sequence that contains the byte b (None for the bytes no valid sequence holds)"""
+    if b < 0x80:
+        return bytes([b])
+    if 0x80 <= b <= 0xBF:
+        return bytes([0xC3, b]) if b <= 0xBF else None
+    if 0xC2 <= b <= 0xDF:
+        return bytes([b, 0xA9])
+    if b == 0xE0:
+        return bytes([b, 0xA0, 0x80])
+    if 0xE1 <= b <= 0xEC or 0xEE <= b <= 0xEF:
+        return bytes([b, 0x80, 0x80])
+    if b == 0xED:
+        return bytes([b, 0x80, 0x80])
+    if b == 0xF0:
+        return bytes([b, 0x90, 0x80, 0x80])
+    if 0xF1 <= b <= 0xF3:
+        return bytes([b, 0x80, 0x80, 0x80])
+    if b == 0xF4:
+        return bytes([b, 0x80, 0x80, 0x80])
+    return None
+
+
+class InterpretedUnquoteModel(object):
+    """The same questions as facts.UnquoteModel -- which escapes does safely_unquote_<component> decode, what
+    does it write for a malformed '%' -- answered by interpreting the four public callables (finite-domain
+    interpreter, ural never imported) on one probe per byte value.  Used when _unquote_impl / the partial
+    bindings no longer have the shape UnquoteModel reads (a refactoring of ural/quote.py)."""
+    interpreted = True
+
+    def __init__(self, repo):
+        from ..microeval import module_value
+        self.repo = repo
+        q = self.q = repo.mod("quote")
+        ref = q.func("unquote")
+        if ref is None:
+            raise AnalysisError("quote.unquote not found")
+        self.fn = ref.node
+        self.callables = {}
+        for name in F.COMPONENTS:
+            try:
+                self.callables[name] = module_value(repo, "quote", name)
+            except Unknown as e:
+                raise AnalysisError("quote.%s is neither functools.partial(unquote, ...) nor interpretable: %s" % (name, e))
+        self.others = {}
+        self._memo = {}
+
+    def run(self, name, text):
+        from ..microeval import call_value
+        key = (name, text)
+        if key not in self._memo:
+            try:
+                self._memo[key] = call_value(self.repo, self.callables[name], [text])
+            except Unknown as e:
+                raise AnalysisError("quote.%s(%r) not interpretable: %s" % (name, text, e))
+        return self._memo[key]
+
+    def decision(self, byte, params, prefix=b""):
+        name = params["_name"]
+        try:
+            pre = prefix.decode("ascii")
+        except UnicodeDecodeError:
+            pre = ""
+        seq = _utf8_sequence(byte)
+        if seq is None:
+            return "keep"
+        probe = "".join("%%%02X" % x for x in seq)
+        head = self.run(name, pre) if pre else ""
+        out = self.run(name, pre + probe)
+        if byte == 0x20:
+            return "decode" if " " in out[len(head):] else "keep"
+        if out == head + seq.decode("utf-8"):
+            return "decode"
+        if out.upper() == (head + probe).upper():
+            return "keep"
+        # the dangling prefix itself was rewritten once the escape followed it: judge on the tail
+        if out.endswith(seq.decode("utf-8")) and not out.upper().endswith(probe):
+            return "decode"
+        if out.upper().endswith(probe):
+            return "keep"
+        return "other"
+
+    def malformed(self, item, params, prefix=b""):
+        return self.run(params["_name"], prefix.decode("ascii") + "%" + item.decode("ascii")).encode("utf-8")
+
+    def decoded_set(self, params):
+        return set(b for b in range(256) if self.decision(b, params) == "decode")
+
+
 def model(ctx):
     repo = ctx.repo
-    m = F.UnquoteModel(repo)
-    binds = F.unquote_bindings(repo)
+    try:
+        m = F.UnquoteModel(repo)
+        binds = F.unquote_bindings(repo)
+    except AnalysisError as e:
+        # the reading of _unquote_impl's guard does not apply to this shape of the module: same obligations,
+        # decided on the interpreted public callables
+        m = InterpretedUnquoteModel(repo)
+        ctx.fn("ural.quote.unquote")
+        ctx.table("ural.quote.safely_unquote_* (interpreted on one probe per byte value: %s)" % e)
+        params = {}
+        sets = {}
+        for name in F.COMPONENTS:
+            params[name] = {"_name": name, "only_printable": True, "unsafe": None, "normalize_space": False}
+            sets[name] = m.decoded_set(params[name])
+        return m, {name: None for name in F.COMPONENTS}, params, sets
     ctx.fn("ural.quote._unquote_impl", "ural.quote._generate_unquoted_parts", "ural.quote.unquote")
     ctx.table("ural.quote.UNSAFE_FOR_*", "ural.quote.safely_unquote_* (partial bindings)")
     sets = {}
@@ -78,23 +187,25 @@ def rule_decode_set(ctx, rule, m, params, sets):
         pr = params[name]
         # such a context only exists when a malformed '%' is written raw: when it is spelled %25 the output buffer never
         # ends with a bare '%' or '%X', and the guard has nothing to protect
-        if all(m.malformed(it, {"only_printable": pr.get("only_printable"), "unsafe": pr.get("unsafe")}).startswith(b"%25") for it in (b"", b"4", b"f")):
+        if all(m.malformed(it, _pp(pr)).startswith(b"%25") for it in (b"", b"4", b"f")):
             ctx.ob(rule, "no-new-escape/%s/no-dangling-context" % comp, True, "", site, sample="%s never leaves a bare '%%' in its output (malformed pieces are written %%25...)" % name)
             continue
         for prefix in (b"%", b"%4", b"%f", b"a%"):
             for b in hexd:
-                d = m.decision(b, {"only_printable": pr.get("only_printable"), "unsafe": pr.get("unsafe")}, prefix=prefix)
+                d = m.decision(b, _pp(pr), prefix=prefix)
                 ctx.ob(rule, "no-new-escape/%s/%s+0x%02X" % (comp, prefix.decode(), b), d == "keep",
                        "%s decodes %%%02X right after the dangling %r: the output contains the new escape %r (%s%%%02X decodes differently on the next pass)" % (name, b, prefix.decode(), (prefix + bytes([b])).decode(), prefix.decode(), b),
                        site, witness=prefix.decode() + "%%%02X" % b, sample="%s: %r + %%%02X -> %s" % (name, prefix.decode(), b, d) if b == 0x41 and prefix == b"%4" else None)
     # a '%' that starts no valid escape is literal text: where '%' must stay escaped it is written %25
     for name, comp in sorted(F.COMPONENTS.items()):
         pr = params[name]
-        pp = {"only_printable": pr.get("only_printable"), "unsafe": pr.get("unsafe")}
+        pp = _pp(pr)
         pct_kept = 0x25 not in sets[name]
         for item in (b"", b"z", b"zz/t", b"4", b"4g", b" 1"):
             got = m.malformed(item, pp)
             exp = (b"%25" if pct_kept else b"%") + item
+            if getattr(m, "interpreted", False):
+                exp = exp.replace(b" ", b"%20")  # the whole callable is interpreted: its whitespace pass has run too
             ctx.ob(rule, "malformed-percent/%s/%s" % (comp, item.decode()), got == exp,
                    "%s writes the malformed piece %r as %r, expected %r: %%25 stays escaped in the %s, so a literal '%%' must be spelled %%25 too (else quoting the result and unquoting it again gives another string: '100%%' -> '100%%25' -> '100%%25')" % (name, (b"%" + item).decode(), got.decode("latin-1"), exp.decode(), comp),
                    site, witness="http://a.com/100%" + item.decode(), sample="%s: %r -> %r" % (name, (b"%" + item).decode(), got.decode("latin-1")) if item == b"zz/t" else None)
@@ -103,8 +214,10 @@ def rule_decode_set(ctx, rule, m, params, sets):
         nonhex = [b for b in range(256) if b not in hexd]
         for name, comp in sorted(F.COMPONENTS.items()):
             pr = params[name]
-            pp = {"only_printable": pr.get("only_printable"), "unsafe": pr.get("unsafe")}
+            pp = _pp(pr)
             for prefix in (b"%", b"%4", b"ab", b"%C3", b"\xc3"):
+                if getattr(m, "interpreted", False) and prefix in (b"%C3", b"\xc3"):
+                    continue  # a lone lead byte cannot be written as input text of the public callables
                 diff = [b for b in nonhex if (m.decision(b, pp, prefix=prefix) == "decode") != (b in sets[name])]
                 ctx.ob(rule, "context-independence/%s/%r" % (comp, prefix), not diff,
                        "%s decides bytes %s differently when the output already ends with %r" % (name, ["0x%02X" % b for b in diff[:5]], prefix), site, sample="%s: 234 non-hex bytes, prefix %r" % (name, prefix))
@@ -126,7 +239,6 @@ def rule_must_decode(ctx, rule, m, params, sets):
 def rule_lossy(ctx, rule):
     ctx.rule(rule, "lossy-decode: the bytes produced by the unescape step are decoded without a lossy error handler (replace/ignore), so an escape that is not valid UTF-8 is not destroyed")
     q = ctx.repo.mod("quote")
-    gen = q.func("_generate_unquoted_parts").node
     n = 0
     # the decode step may sit in _generate_unquoted_parts or in a helper it calls
     sites = []
@@ -163,7 +275,21 @@ def rule_lossy(ctx, rule):
                    q.site(c), witness="/caf%E9")
             if ev not in ("replace", "ignore", "strict"):
                 _check_error_handler(ctx, rule, q, ev, c)
-    ctx.require_instances(rule, n, 1, ".decode() sites between unquote and _unquote_impl")
+    if n == 0:
+        # no .decode() in the functions the call graph reaches from unquote (the step moved into a class or a closure):
+        # the obligation is decided on the interpreted callable
+        from . import tables as TB
+        from ..microeval import module_value, call_value
+
+        def cells():
+            cb = module_value(ctx.repo, "quote", "safely_unquote_path")
+            out = []
+            for text, want in (("/caf%E9", "/caf%E9"), ("/%E2%82", "/%E2%82"), ("/%FF%FE", "/%FF%FE"), ("/%C3%A9", "/\u00e9"), ("/%E2%82%AC%E9", "/\u20ac%E9")):
+                got = call_value(ctx.repo, cb, [text])
+                out.append(("safely_unquote_path(%r) -> %r" % (text, got), got == want))
+            return out
+        ctx.ob(rule, "lossy-decode/interpreted", False, "no .decode() step found between unquote and the unescape loop", q.site(q.func("unquote").node), witness="/caf%E9", cells=cells)
+        return
 
 
 def rule_space(ctx, rule):
@@ -256,6 +382,27 @@ def rule_hex_table(ctx, rule):
 def rule_leaf_shapes(ctx, rule, m):
     ctx.rule(rule, "no-bytes-lost / single pass: a kept escape re-emits '%' + the whole piece, a decoded escape emits the byte + the rest of the piece after the two hex digits; the pieces of split('%') are visited once")
     q = ctx.repo.mod("quote")
+    if getattr(m, "interpreted", False):
+        # same obligation on the interpreted callables: nothing but the decodable escapes changes, piece by piece
+        import itertools
+        site = q.site(m.fn)
+        for name, comp in sorted(F.COMPONENTS.items()):
+            pp = {"_name": name}
+            D = m.decoded_set(pp)
+            pct = "%25" if 0x25 not in D else "%"
+            bad = None
+            n = 0
+            for tup in itertools.product(["a", "%41", "%2F", "%7e", "%", "%4", "%zz", "/", "%25"], repeat=3):
+                text = "".join(tup)
+                n += 1
+                exp = re.sub(r"%([0-9A-Fa-f]{2})|%", lambda mo: (chr(int(mo.group(1), 16)) if int(mo.group(1), 16) in D and int(mo.group(1), 16) < 0x80 else mo.group(0)) if mo.group(1) else pct, text)
+                got = m.run(name, text)
+                if got.upper() != exp.upper() or re.sub(r"%[0-9A-Fa-f]{2}", "", got) != re.sub(r"%[0-9A-Fa-f]{2}", "", exp):
+                    bad = (text, got, exp)
+                    break
+            ctx.ob(rule, "pieces/%s" % comp, bad is None, "%s(%r) gives %r, expected %r: only decodable escapes may change, every other character is re-emitted once" % ((name,) + (bad or ("", "", ""))), site,
+                   witness=bad and bad[0], sample="%s: %d strings of 3 pieces over {a, %%41, %%2F, %%7e, %%, %%4, %%zz, /, %%25}" % (name, n))
+        return
     for i, ((conds, stmts), kind) in enumerate(zip(m.leaves, m.kinds)):
         condtxt = " and ".join(("" if pol else "not ") + unparse(c) for c, pol in conds)
         ok = m.leaf_shape_ok(i)
@@ -436,8 +583,23 @@ def rule_c1(ctx, rule, sets):
     ctx.rule(rule, "c1-controls: when the decoded byte set lets %C2%80..%C2%9F through, the decoded text passes a character-level re-escape covering U+0080..U+009F before it is yielded (only_printable mode)")
     repo = ctx.repo
     q = repo.mod("quote")
-    ref = q.func("_generate_unquoted_parts")
     reachable = [name for name, D in sets.items() if 0xC2 in D and any(b in D for b in range(0x80, 0xA0))]
+    try:
+        ref = q.func("_generate_unquoted_parts")
+    except AnalysisError:
+        # the generator is gone (refactored): decided on the interpreted callables
+        from ..microeval import module_value, call_value
+        uq = q.func("unquote")
+        for name in sorted(reachable) or ["safely_unquote_path"]:
+            def cells(name=name):
+                cb = module_value(repo, "quote", name)
+                out = []
+                for text in ("a%C2%85b", "%C2%80", "%C2%9F%C2%A0", "a\u0085b"):
+                    got = call_value(repo, cb, [text])
+                    out.append(("%s(%r) -> %r" % (name, text, got), not re.search("[\x80-\x9f]", got) or text == "a\u0085b"))
+                return out
+            ctx.ob(rule, "c1-controls/%s/interpreted" % name, False, "the generator that yields decoded text is gone and %s could not be interpreted" % name, q.site(uq.node), witness="/a%C2%85b", cells=cells)
+        return
     if not reachable:
         ctx.ob(rule, "c1-controls/not-reachable", True, "", q.site(ref.node), sample="no component decodes both 0xC2 and 0x80-0x9F")
         return
